@@ -468,6 +468,18 @@ impl Gen {
             }
             15 => {
                 let v = self.rng.pick(&VALS[..4]);
+                // stake stranded on a validator that is no longer registered (its removal happened while
+                // the chain refused the redelegation): un-block it and ask for the redelegation
+                let regd: Vec<Id> = c.reg_validators().iter().map(|x| x.0).collect();
+                let stranded: Vec<Id> = VALS.iter().cloned().filter(|x| !regd.contains(x) && c.deleg_of(*x) > 0).collect();
+                if !stranded.is_empty() && self.rng.chance(1, 2) {
+                    let w = self.rng.pick(&stranded);
+                    return if c.no_redelegate.contains(&w) && self.rng.chance(2, 3) {
+                        Op::Env(EnvOp::NoRedel(w, false))
+                    } else {
+                        tx(u, REG, Call::Reg(RegMsg::Redelegations(w)))
+                    };
+                }
                 match self.rng.below(6) {
                     0 | 1 => tx(OWNER, REG, Call::Reg(RegMsg::Add(v))),
                     2 | 3 => tx(OWNER, REG, Call::Reg(RegMsg::Remove(v))),
@@ -549,7 +561,9 @@ impl Gen {
     pub fn invalid_op(&mut self, c: &Chain) -> Op {
         let u = self.rng.pick(&USERS);
         let a = 1 + self.rng.below(1000) as u128;
-        match self.rng.below(12) {
+        match self.rng.below(14) {
+            12 => Op::Tx { sender: u, target: HUB, call: Call::Hub(HubMsg::Bond), funds: vec![(0, a.min(c.bal(u, 0)).max(1)), (1, 1)] },
+            13 => Op::Tx { sender: u, target: HUB, call: Call::Hub(HubMsg::BondSt), funds: vec![] },
             0 => txf(u, HUB, Call::Hub(HubMsg::BondRw), a.min(c.bal(u, 0)).max(1)),
             1 => tx(u, HUB, Call::Hub(HubMsg::Receive(u, a, Hook::Unbond))),
             2 => tx(u, BSEI, Call::Tok(TokMsg::Mint(u, a))),
